@@ -158,17 +158,19 @@ mod verif_hashtbl {
             false
         }
     }
+    /// one check per clause (no custom messages: in this no_std crate Kani replaces them by a
+    /// placeholder, the stringified condition is more informative)
     fn assert_wf(t: &Tbl, h: &H, nk: u8) {
-        let b = wf_bits(t, h, nk);
-        assert!(b & W_SHAPE == 0, "wf(b) slots is 0 or a power of two >= 16");
-        assert!(b & W_STATUS == 0, "wf every status is FREE/TOMBSTONE/hash");
-        assert!(b & W_LEN == 0, "wf(a) len == #occupied");
-        assert!(b & W_FREE == 0, "wf(a) free <= #FREE");
-        assert!(b & W_RESERVE == 0, "wf(b) free >= slots/4");
-        assert!(b & W_REACH == 0, "wf(c) element reachable from home without crossing FREE");
-        assert!(b & W_NODUP == 0, "wf(d) no duplicate keys");
-        assert!(b & W_TAG == 0, "wf(e) status == tag(hash(key))");
-        assert!(b & W_UNIVERSE == 0, "keys stay inside the universe");
+        let violated = wf_bits(t, h, nk);
+        assert!(violated & W_SHAPE == 0); // (b) slots is 0 or a power of two >= 16
+        assert!(violated & W_STATUS == 0); // every status is FREE/TOMBSTONE/hash
+        assert!(violated & W_LEN == 0); // (a) len == #occupied
+        assert!(violated & W_FREE == 0); // (a) free <= #FREE
+        assert!(violated & W_RESERVE == 0); // (b) free >= slots/4
+        assert!(violated & W_REACH == 0); // (c) reachable from home without crossing FREE
+        assert!(violated & W_NODUP == 0); // (d) no duplicate keys
+        assert!(violated & W_TAG == 0); // (e) status == tag(hash(key))
+        assert!(violated & W_UNIVERSE == 0); // keys stay inside the universe
     }
 
     // abstract view -------------------------------------------------------------------------
@@ -526,6 +528,738 @@ mod verif_hashtbl {
         cover_prestate(&t, &h);
         kani::cover!(r.is_some());
         kani::cover!(r.is_none() && t.len > 0);
+        core::mem::forget(t);
+    }
+
+    #[kani::proof]
+    #[kani::unwind(17)]
+    fn get_16() {
+        let h: H = kani::any();
+        let t = any_wf16(&h);
+        let k = any_key();
+        let idx = slot_of::<16>(&t, k);
+        match t.get(hash_of(&h, k), |&x| x == k) {
+            Some(p) => {
+                assert!(idx < 16 && view(&t) & bit(k) != 0);
+                assert!(*p == k);
+                assert!(core::ptr::eq(p, t.data[idx].data.as_ptr()));
+            }
+            None => assert!(idx == 16 && view(&t) & bit(k) == 0),
+        }
+        kani::cover!(idx < 16);
+        kani::cover!(idx == 16 && t.len == 4);
+        core::mem::forget(t);
+    }
+    #[kani::proof]
+    #[kani::unwind(17)]
+    fn get_mut_16() {
+        let h: H = kani::any();
+        let mut t = any_wf16(&h);
+        let k = any_key();
+        let idx = slot_of::<16>(&t, k);
+        let s = snap::<16>(&t);
+        let r = t.get_mut(hash_of(&h, k), |&x| x == k).map(|r| r as *mut u8);
+        match r {
+            Some(p) => {
+                assert!(idx < 16 && s.view & bit(k) != 0);
+                assert!(p == t.data[idx].data.as_mut_ptr());
+            }
+            None => assert!(idx == 16 && s.view & bit(k) == 0),
+        }
+        assert!(unchanged::<16>(&t, &s));
+        kani::cover!(idx < 16);
+        kani::cover!(idx == 16 && t.len == 4);
+        core::mem::forget(t);
+    }
+    /// trivial accessors and the slot-indexed unchecked getters
+    #[kani::proof]
+    #[kani::unwind(17)]
+    fn accessors_16() {
+        let h: H = kani::any();
+        let mut t = any_wf16(&h);
+        let s = snap::<16>(&t);
+        assert!(t.len() == (s.view.count_ones() as usize));
+        assert!(t.is_empty() == (s.view == 0));
+        assert!(t.slots() == 16 && t.capacity() == 12);
+        let i: usize = kani::any();
+        kani::assume(i < 16);
+        assert!(unsafe { t.is_slot_occupied_unchecked(i) } == s_occ(s.st[i]));
+        if s_occ(s.st[i]) {
+            assert!(*unsafe { t.get_at_slot_unchecked(i) } == s.key[i]);
+            let p = unsafe { t.get_at_slot_unchecked_mut(i) } as *mut u8;
+            assert!(p == t.data[i].data.as_mut_ptr());
+        }
+        assert!(unchanged::<16>(&t, &s));
+        kani::cover!(s_occ(s.st[i]) && s.len == NK as usize);
+        core::mem::forget(t);
+    }
+
+    // =========================================================================================
+    // find_or_find_insert_slot / insert
+    // =========================================================================================
+    fn check_fofis_result<const N: usize>(t: &Tbl, h: &H, k: u8, r: Result<usize, usize>, old_view: u32) {
+        match r {
+            Ok(i) => {
+                assert!(old_view & bit(k) != 0);
+                assert!(i < N && s_occ(st(t, i)) && key(t, i) == k);
+            }
+            Err(i) => {
+                assert!(old_view & bit(k) == 0);
+                assert!(valid_insert_slot::<N>(t, h, k, i));
+            }
+        }
+    }
+    /// enough reserve: no rehash, table untouched
+    #[kani::proof]
+    #[kani::unwind(17)]
+    fn find_or_find_insert_slot_16_norehash() {
+        let h: H = kani::any();
+        let mut t = any_wf16(&h);
+        kani::assume(t.free >= 16 / 4 + 1);
+        let k = any_key();
+        let s = snap::<16>(&t);
+        let r = t.find_or_find_insert_slot(hash_of(&h, k), |&x| x == k);
+        assert!(unchanged::<16>(&t, &s));
+        check_fofis_result::<16>(&t, &h, k, r, s.view);
+        kani::cover!(r.is_ok());
+        kani::cover!(match r { Err(i) => st(&t, i) == S_TOMB, _ => false }, "insertion slot is a tombstone");
+        kani::cover!(match r { Err(i) => st(&t, i) == S_FREE && i < (hash_of(&h, k) as usize & 15), _ => false }, "insertion slot after wrap-around");
+        core::mem::forget(t);
+    }
+    /// reserve exhausted (free == slots/4): rehash in place (tombstones are purged), 16 -> 16
+    #[kani::proof]
+    #[kani::unwind(17)]
+    fn find_or_find_insert_slot_16_rehash() {
+        let h: H = kani::any();
+        let mut t = any_wf16(&h);
+        kani::assume(t.free < 16 / 4 + 1);
+        let k = any_key();
+        let old_view = view(&t);
+        let old_len = t.len;
+        let r = t.find_or_find_insert_slot(hash_of(&h, k), |&x| x == k);
+        assert!(t.data.len() == 16);
+        assert_wf(&t, &h, NK);
+        assert!(view(&t) == old_view && t.len == old_len);
+        assert!(free_exact(&t) && t.free == 16 - old_len);
+        assert!(t.free >= 16 / 4 + 1); // the reserve(1) guarantee
+        check_fofis_result::<16>(&t, &h, k, r, old_view);
+        kani::cover!(r.is_ok());
+        kani::cover!(r.is_err() && old_len == 4);
+        kani::cover!(old_len == NK as usize);
+        core::mem::forget(t);
+    }
+    /// growth 16 -> 32: table holds 12 elements (key universe 0..13), 4 FREE slots
+    #[kani::proof]
+    #[kani::unwind(33)]
+    fn find_or_find_insert_slot_grow_16_to_32() {
+        const NK2: u8 = 13;
+        let h: H = kani::any();
+        let mut t = any_table::<16>(&h, NK2);
+        kani::assume(wf(&t, &h, NK2));
+        kani::assume(t.len == 12);
+        let k: u8 = kani::any();
+        kani::assume(k < NK2);
+        let old_view = view(&t);
+        let r = t.find_or_find_insert_slot(hash_of(&h, k), |&x| x == k);
+        assert!(t.data.len() == 32);
+        assert_wf(&t, &h, NK2);
+        assert!(view(&t) == old_view && t.len == 12);
+        assert!(free_exact(&t) && t.free == 20);
+        check_fofis_result::<32>(&t, &h, k, r, old_view);
+        kani::cover!(r.is_ok());
+        kani::cover!(r.is_err());
+        core::mem::forget(t);
+    }
+    /// first insertion into a table created by `new()`: 0 -> 16
+    #[kani::proof]
+    #[kani::unwind(17)]
+    fn find_or_find_insert_slot_from_empty() {
+        let h: H = kani::any();
+        let mut t = Tbl::new();
+        let k = any_key();
+        let r = t.find_or_find_insert_slot(hash_of(&h, k), |&x| x == k);
+        assert!(t.data.len() == 16);
+        assert_wf(&t, &h, NK);
+        assert!(view(&t) == 0 && free_exact(&t) && t.free == 16);
+        check_fofis_result::<16>(&t, &h, k, r, 0);
+        assert!(r == Err(hash_of(&h, k) as usize & 15));
+        kani::cover!(r == Err(15));
+        core::mem::forget(t);
+    }
+    /// precondition = postcondition of `find_or_find_insert_slot` in the Err case
+    #[kani::proof]
+    #[kani::unwind(17)]
+    fn insert_in_slot_unchecked_16() {
+        let h: H = kani::any();
+        let mut t = any_wf16(&h);
+        let k = any_key();
+        let slot: usize = kani::any();
+        kani::assume(view(&t) & bit(k) == 0);
+        kani::assume(valid_insert_slot::<16>(&t, &h, k, slot));
+        kani::assume(st(&t, slot) == S_TOMB || t.free >= 16 / 4 + 1);
+        let s = snap::<16>(&t);
+        let p = unsafe { t.insert_in_slot_unchecked(hash_of(&h, k), slot, k) } as *mut u8;
+        assert!(p == t.data[slot].data.as_mut_ptr());
+        assert_wf(&t, &h, NK);
+        assert!(view(&t) == s.view | bit(k));
+        assert!(t.len == s.len + 1);
+        assert!(s_occ(st(&t, slot)) && key(&t, slot) == k);
+        assert!(same_slots_except::<16>(&t, &s, slot));
+        assert!(!s.exact || free_exact(&t));
+        kani::cover!(s.st[slot] == S_TOMB && s.free == 4);
+        kani::cover!(s.st[slot] == S_FREE && s.len == 4);
+        kani::cover!(s.st[slot] == S_FREE && slot < (hash_of(&h, k) as usize & 15), "wrap-around");
+        core::mem::forget(t);
+    }
+    /// the composed public insertion protocol: find_or_find_insert_slot, then insert on Err
+    #[kani::proof]
+    #[kani::unwind(17)]
+    fn insert_16() {
+        let h: H = kani::any();
+        let mut t = any_wf16(&h);
+        let k = any_key();
+        let old_view = view(&t);
+        let old_len = t.len;
+        let present = old_view & bit(k) != 0;
+        match t.find_or_find_insert_slot(hash_of(&h, k), |&x| x == k) {
+            Ok(_) => assert!(present),
+            Err(slot) => {
+                assert!(!present);
+                unsafe { t.insert_in_slot_unchecked(hash_of(&h, k), slot, k) };
+            }
+        }
+        assert!(t.data.len() == 16);
+        assert_wf(&t, &h, NK);
+        assert!(view(&t) == old_view | bit(k));
+        assert!(t.len == if present { old_len } else { old_len + 1 });
+        kani::cover!(present);
+        kani::cover!(!present && old_len == 4);
+        core::mem::forget(t);
+    }
+
+    // =========================================================================================
+    // removal
+    // =========================================================================================
+    #[kani::proof]
+    #[kani::unwind(17)]
+    fn remove_entry_16() {
+        let h: H = kani::any();
+        let mut t = any_wf16(&h);
+        let k = any_key();
+        let s = snap::<16>(&t);
+        let idx = slot_of::<16>(&t, k);
+        let r = t.remove_entry(hash_of(&h, k), |&x| x == k);
+        match r {
+            Some(v) => {
+                assert!(v == k && s.view & bit(k) != 0 && idx < 16);
+                assert!(view(&t) == s.view & !bit(k));
+                assert!(t.len == s.len - 1);
+                assert!(!s_occ(st(&t, idx)));
+                assert!(same_slots_except::<16>(&t, &s, idx));
+            }
+            None => {
+                assert!(s.view & bit(k) == 0);
+                assert!(unchanged::<16>(&t, &s));
+            }
+        }
+        assert_wf(&t, &h, NK);
+        assert!(!s.exact || free_exact(&t));
+        kani::cover!(r.is_some() && st(&t, idx) == S_TOMB);
+        kani::cover!(r.is_some() && st(&t, idx) == S_FREE && idx == 15, "freed because slot 0 (wrap) is FREE");
+        kani::cover!(r.is_none() && s.len == 4);
+        core::mem::forget(t);
+    }
+    #[kani::proof]
+    #[kani::unwind(17)]
+    fn remove_at_slot_unchecked_16() {
+        let h: H = kani::any();
+        let mut t = any_wf16(&h);
+        let slot: usize = kani::any();
+        kani::assume(slot < 16 && s_occ(st(&t, slot)));
+        let s = snap::<16>(&t);
+        let k = s.key[slot];
+        let v = unsafe { t.remove_at_slot_unchecked(slot) };
+        assert!(v == k);
+        assert!(view(&t) == s.view & !bit(k));
+        assert!(t.len == s.len - 1);
+        assert!(!s_occ(st(&t, slot)));
+        assert!(same_slots_except::<16>(&t, &s, slot));
+        assert_wf(&t, &h, NK);
+        assert!(!s.exact || free_exact(&t));
+        kani::cover!(st(&t, slot) == S_TOMB && s.len == NK as usize);
+        kani::cover!(st(&t, slot) == S_FREE && slot == 15);
+        core::mem::forget(t);
+    }
+
+    // =========================================================================================
+    // retain (symbolic predicate = bitmask over keys)
+    // =========================================================================================
+    /// `lo..=hi` is the admitted number of surviving elements; it selects the code path
+    /// (no shrink / rehash to 16 / rehash to 0) so that the allocation size is a constant.
+    fn retain_case(lo: usize, hi: usize, old_nonempty: bool) {
+        let h: H = kani::any();
+        let mut t = any_wf16(&h);
+        let keep: u32 = kani::any::<u8>() as u32;
+        let s = snap::<16>(&t);
+        let survivors = (s.view & keep).count_ones() as usize;
+        kani::assume(survivors >= lo && survivors <= hi);
+        kani::assume((s.len > 0) == old_nonempty);
+        let mut calls = [0u8; 16];
+        let mut dropped = [0u8; 16];
+        t.retain(
+            |x: &mut u8| {
+                calls[(*x & 15) as usize] += 1;
+                (keep >> (*x & 15)) & 1 == 1
+            },
+            |x: u8| dropped[(x & 15) as usize] += 1,
+        );
+        assert_wf(&t, &h, NK);
+        assert!(view(&t) == s.view & keep);
+        assert!(t.len == survivors);
+        let mut k = 0u8;
+        while k < 16 {
+            let was_in = (s.view >> k) & 1 == 1;
+            let kept = (keep >> k) & 1 == 1;
+            // predicate called exactly once per stored element, never for anything else
+            assert!(calls[k as usize] == was_in as u8);
+            // exactly the rejected elements are handed to `drop`, once each
+            assert!(dropped[k as usize] == (was_in && !kept) as u8);
+            k += 1;
+        }
+        assert!(!s.exact || free_exact(&t));
+        let n = t.data.len();
+        assert!(n == 16 || n == 0);
+        kani::cover!(n == 0);
+        kani::cover!(n == 16 && survivors == hi && s.len == NK as usize);
+        if n == 16 {
+            // tombstone compaction without rehash
+            kani::cover!(t.len + t.free > s.len + s.free && survivors >= 4, "tombstones were turned into FREE");
+            kani::cover!(st(&t, 15) == S_TOMB && s_occ(s.st[15]), "rejected element became a tombstone");
+        }
+        core::mem::forget(t);
+    }
+    #[kani::proof]
+    #[kani::unwind(17)]
+    fn retain_16_noshrink() {
+        retain_case(4, 16, true);
+    }
+    #[kani::proof]
+    #[kani::unwind(17)]
+    fn retain_16_shrink_rehash_16() {
+        retain_case(1, 3, true);
+    }
+    #[kani::proof]
+    #[kani::unwind(17)]
+    fn retain_16_shrink_to_0() {
+        retain_case(0, 0, true);
+    }
+    #[kani::proof]
+    #[kani::unwind(17)]
+    fn retain_16_empty() {
+        retain_case(0, 0, false);
+    }
+
+    // =========================================================================================
+    // clearing
+    // =========================================================================================
+    #[kani::proof]
+    #[kani::unwind(17)]
+    fn clear_16() {
+        let h: H = kani::any();
+        let mut t = any_wf16(&h);
+        let s = snap::<16>(&t);
+        t.clear();
+        assert!(t.data.len() == 16 && t.len == 0 && view(&t) == 0);
+        assert_wf(&t, &h, NK);
+        kani::cover!(s.len == NK as usize);
+        kani::cover!(s.len == 0 && s.free < 16);
+        core::mem::forget(t);
+    }
+    /// strict reading of the field doc: `free` is THE number of free slots
+    #[kani::proof]
+    #[kani::unwind(17)]
+    fn clear_16_free_exact() {
+        let h: H = kani::any();
+        let mut t = any_wf16(&h);
+        kani::assume(free_exact(&t));
+        t.clear();
+        assert!(free_exact(&t));
+        kani::cover!(t.free == 16);
+        core::mem::forget(t);
+    }
+    #[kani::proof]
+    #[kani::unwind(17)]
+    fn clear_no_drop_16() {
+        let h: H = kani::any();
+        let mut t = any_wf16(&h);
+        let s = snap::<16>(&t);
+        t.clear_no_drop();
+        assert!(t.data.len() == 16 && t.len == 0 && view(&t) == 0);
+        assert_wf(&t, &h, NK);
+        kani::cover!(s.len == NK as usize);
+        kani::cover!(s.len == 0 && s.free < 16);
+        core::mem::forget(t);
+    }
+    #[kani::proof]
+    #[kani::unwind(17)]
+    fn clear_no_drop_16_free_exact() {
+        let h: H = kani::any();
+        let mut t = any_wf16(&h);
+        kani::assume(free_exact(&t));
+        t.clear_no_drop();
+        assert!(free_exact(&t));
+        kani::cover!(t.free == 16);
+        core::mem::forget(t);
+    }
+    #[kani::proof]
+    #[kani::unwind(17)]
+    fn reset_no_drop_16() {
+        let h: H = kani::any();
+        let mut t = any_wf16(&h);
+        let s = snap::<16>(&t);
+        t.reset_no_drop();
+        assert!(t.data.len() == 0 && t.len == 0 && view(&t) == 0);
+        assert_wf(&t, &h, NK);
+        kani::cover!(s.len == NK as usize);
+        core::mem::forget(t);
+    }
+
+    // =========================================================================================
+    // drain
+    // =========================================================================================
+    /// full iteration: every element of the view exactly once, exact size hints, fused
+    #[kani::proof]
+    #[kani::unwind(17)]
+    fn drain_16_yields_view() {
+        let h: H = kani::any();
+        let mut t = any_wf16(&h);
+        let s = snap::<16>(&t);
+        let mut seen = 0u32;
+        let mut cnt = 0usize;
+        {
+            let mut d = t.drain();
+            assert!(d.len() == s.len);
+            let mut n = 0;
+            while n <= NK {
+                match d.next() {
+                    Some(x) => {
+                        assert!(seen & bit(x) == 0);
+                        seen |= bit(x);
+                        cnt += 1;
+                        assert!(d.len() == s.len - cnt);
+                        assert!(d.size_hint() == (s.len - cnt, Some(s.len - cnt)));
+                    }
+                    None => break,
+                }
+                n += 1;
+            }
+            assert!(d.next().is_none());
+        }
+        assert!(seen == s.view && cnt == s.len);
+        assert!(t.data.len() == 16 && t.len == 0 && view(&t) == 0);
+        kani::cover!(cnt == NK as usize);
+        kani::cover!(cnt == 0);
+        core::mem::forget(t);
+    }
+    /// `m` calls to next(), then the iterator is dropped: the table is empty afterwards
+    #[kani::proof]
+    #[kani::unwind(17)]
+    fn drain_16_early_drop_empties() {
+        let h: H = kani::any();
+        let mut t = any_wf16(&h);
+        let s = snap::<16>(&t);
+        let m: u8 = kani::any();
+        kani::assume(m <= NK);
+        let mut seen = 0u32;
+        {
+            let mut d = t.drain();
+            let mut n = 0;
+            while n < m {
+                if let Some(x) = d.next() {
+                    assert!(seen & bit(x) == 0 && s.view & bit(x) != 0);
+                    seen |= bit(x);
+                }
+                n += 1;
+            }
+        }
+        assert!(t.data.len() == 16 && t.len == 0 && view(&t) == 0);
+        kani::cover!(m == 2 && s.len == NK as usize);
+        kani::cover!(m == 0 && s.len == 3);
+        core::mem::forget(t);
+    }
+    /// after a (partially consumed and then dropped) drain the table is well-formed again
+    #[kani::proof]
+    #[kani::unwind(17)]
+    fn drain_16_restores_wf() {
+        let h: H = kani::any();
+        let mut t = any_wf16(&h);
+        let s = snap::<16>(&t);
+        let m: u8 = kani::any();
+        kani::assume(m <= NK);
+        {
+            let mut d = t.drain();
+            let mut n = 0;
+            while n < m {
+                let _ = d.next();
+                n += 1;
+            }
+        }
+        assert_wf(&t, &h, NK);
+        kani::cover!(m == 2 && s.len == NK as usize);
+        core::mem::forget(t);
+    }
+
+    // =========================================================================================
+    // iterators: every element exactly once
+    // =========================================================================================
+    #[kani::proof]
+    #[kani::unwind(17)]
+    fn iter_16() {
+        let h: H = kani::any();
+        let t = any_wf16(&h);
+        let v = view(&t);
+        let mut seen = 0u32;
+        let mut cnt = 0usize;
+        let mut it = t.iter();
+        assert!(it.len() == t.len);
+        let mut n = 0;
+        while n <= NK {
+            match it.next() {
+                Some(&x) => {
+                    assert!(seen & bit(x) == 0);
+                    seen |= bit(x);
+                    cnt += 1;
+                    assert!(it.len() == t.len - cnt);
+                    assert!(it.size_hint() == (t.len - cnt, Some(t.len - cnt)));
+                }
+                None => break,
+            }
+            n += 1;
+        }
+        assert!(it.next().is_none());
+        assert!(seen == v && cnt == t.len);
+        kani::cover!(cnt == NK as usize);
+        kani::cover!(cnt == 0 && t.free < 16);
+        core::mem::forget(t);
+    }
+    #[kani::proof]
+    #[kani::unwind(17)]
+    fn iter_mut_16() {
+        let h: H = kani::any();
+        let mut t = any_wf16(&h);
+        let s = snap::<16>(&t);
+        let mut seen = 0u32;
+        let mut cnt = 0usize;
+        {
+            let mut it = t.iter_mut();
+            assert!(it.len() == s.len);
+            let mut n = 0;
+            while n <= NK {
+                match it.next() {
+                    Some(x) => {
+                        assert!(seen & bit(*x) == 0);
+                        seen |= bit(*x);
+                        cnt += 1;
+                        assert!(it.len() == s.len - cnt);
+                        assert!(it.size_hint() == (s.len - cnt, Some(s.len - cnt)));
+                    }
+                    None => break,
+                }
+                n += 1;
+            }
+            assert!(it.next().is_none());
+        }
+        assert!(seen == s.view && cnt == s.len);
+        assert!(unchanged::<16>(&t, &s));
+        kani::cover!(cnt == NK as usize);
+        core::mem::forget(t);
+    }
+    #[kani::proof]
+    #[kani::unwind(17)]
+    fn into_iter_16() {
+        let h: H = kani::any();
+        let t = any_wf16(&h);
+        let s = snap::<16>(&t);
+        let mut seen = 0u32;
+        let mut cnt = 0usize;
+        let mut it = t.into_iter();
+        assert!(it.len() == s.len);
+        let mut n = 0;
+        while n <= NK {
+            match it.next() {
+                Some(x) => {
+                    assert!(seen & bit(x) == 0);
+                    seen |= bit(x);
+                    cnt += 1;
+                    assert!(it.len() == s.len - cnt);
+                    assert!(it.size_hint() == (s.len - cnt, Some(s.len - cnt)));
+                }
+                None => break,
+            }
+            n += 1;
+        }
+        assert!(it.next().is_none());
+        assert!(seen == s.view && cnt == s.len);
+        kani::cover!(cnt == NK as usize);
+        drop(it);
+    }
+    /// IntoIter dropped after `m` elements (exercises IntoIter::drop)
+    #[kani::proof]
+    #[kani::unwind(17)]
+    fn into_iter_16_early_drop() {
+        let h: H = kani::any();
+        let t = any_wf16(&h);
+        let s = snap::<16>(&t);
+        let m: u8 = kani::any();
+        kani::assume(m <= NK);
+        let mut seen = 0u32;
+        let mut it = t.into_iter();
+        let mut n = 0;
+        while n < m {
+            if let Some(x) = it.next() {
+                assert!(seen & bit(x) == 0 && s.view & bit(x) != 0);
+                seen |= bit(x);
+            }
+            n += 1;
+        }
+        kani::cover!(m == 2 && s.len == NK as usize);
+        drop(it);
+    }
+
+    // =========================================================================================
+    // clone
+    // =========================================================================================
+    #[kani::proof]
+    #[kani::unwind(17)]
+    fn clone_16() {
+        let h: H = kani::any();
+        let t = any_wf16(&h);
+        let s = snap::<16>(&t);
+        let c = t.clone();
+        assert!(unchanged::<16>(&t, &s));
+        assert!(unchanged::<16>(&c, &s)); // same slot layout, len and free
+        assert!(c.data.as_ptr() != t.data.as_ptr());
+        assert_wf(&c, &h, NK);
+        assert!(view(&c) == s.view);
+        kani::cover!(s.len == NK as usize && s.free == 4);
+        core::mem::forget(t);
+        core::mem::forget(c);
+    }
+
+    // =========================================================================================
+    // reserve
+    // =========================================================================================
+    #[kani::proof]
+    #[kani::unwind(17)]
+    fn reserve_16_norehash() {
+        let h: H = kani::any();
+        let mut t = any_wf16(&h);
+        let add: usize = kani::any();
+        kani::assume(add <= 12);
+        kani::assume(t.free >= add + 4);
+        let s = snap::<16>(&t);
+        t.reserve(add);
+        assert!(unchanged::<16>(&t, &s));
+        kani::cover!(add == 12);
+        kani::cover!(add == 7 && s.len == NK as usize);
+        core::mem::forget(t);
+    }
+    fn reserve_post(t: &Tbl, h: &H, s: &Snap<16>, add: usize, slots: usize) {
+        assert!(t.data.len() == slots);
+        assert_wf(t, h, NK);
+        assert!(view(t) == s.view && t.len == s.len);
+        assert!(free_exact(t) && t.free == slots - s.len);
+        // the next `add` insertions do not rehash: each needs free >= slots/4 + 1 beforehand
+        assert!(t.free >= add + slots / 4);
+        assert!(t.capacity() >= s.len + add);
+    }
+    #[kani::proof]
+    #[kani::unwind(17)]
+    fn reserve_16_rehash_to_16() {
+        let h: H = kani::any();
+        let mut t = any_wf16(&h);
+        let add: usize = kani::any();
+        kani::assume(add <= 12);
+        kani::assume(t.free < add + 4);
+        kani::assume(t.len + add <= 12);
+        let s = snap::<16>(&t);
+        t.reserve(add);
+        reserve_post(&t, &h, &s, add, 16);
+        kani::cover!(add == 12);
+        kani::cover!(add == 7 && s.len == NK as usize);
+        kani::cover!(add == 0);
+        core::mem::forget(t);
+    }
+    #[kani::proof]
+    #[kani::unwind(33)]
+    fn reserve_16_rehash_to_32() {
+        let h: H = kani::any();
+        let mut t = any_wf16(&h);
+        let add: usize = kani::any();
+        kani::assume(t.len + add >= 13 && t.len + add <= 24);
+        let s = snap::<16>(&t);
+        t.reserve(add);
+        reserve_post(&t, &h, &s, add, 32);
+        kani::cover!(add == 24);
+        kani::cover!(add == 8 && s.len == NK as usize);
+        core::mem::forget(t);
+    }
+    #[kani::proof]
+    #[kani::unwind(17)]
+    fn reserve_from_empty() {
+        let h: H = kani::any();
+        let mut t = Tbl::new();
+        t.reserve(0);
+        assert!(t.data.len() == 0);
+        assert_wf(&t, &h, NK);
+        let mut a = Tbl::new();
+        a.reserve(1);
+        assert!(a.data.len() == 16 && a.free == 16 && free_exact(&a) && view(&a) == 0);
+        assert_wf(&a, &h, NK);
+        let mut b = Tbl::new();
+        b.reserve(12);
+        assert!(b.data.len() == 16 && b.free == 16 && free_exact(&b) && view(&b) == 0);
+        assert_wf(&b, &h, NK);
+    }
+
+    // =========================================================================================
+    // more self-tests (MUST be refuted)
+    // =========================================================================================
+    /// without clause (c) of wf, `find` misses stored elements
+    #[kani::proof]
+    #[kani::unwind(17)]
+    fn selftest_find_needs_reachability() {
+        let h: H = kani::any();
+        let t = any_table::<16>(&h, NK);
+        kani::assume(wf_bits(&t, &h, NK) & !W_REACH == 0);
+        let k = any_key();
+        let r = t.find(hash_of(&h, k), |&x| x == k);
+        assert!(r.is_some() == (view(&t) & bit(k) != 0));
+        core::mem::forget(t);
+    }
+    /// negated postcondition: removing a stored key leaves the view unchanged
+    #[kani::proof]
+    #[kani::unwind(17)]
+    fn selftest_remove_keeps_view() {
+        let h: H = kani::any();
+        let mut t = any_wf16(&h);
+        let k = any_key();
+        let old = view(&t);
+        kani::assume(old & bit(k) != 0);
+        let _ = t.remove_entry(hash_of(&h, k), |&x| x == k);
+        assert!(view(&t) == old);
+        core::mem::forget(t);
+    }
+    /// without clauses (a-free)/(b) the probe loop of `find` does not terminate within `slots`
+    /// steps: the unwinding assertion must fail
+    #[kani::proof]
+    #[kani::unwind(17)]
+    fn selftest_find_needs_free_slot() {
+        let h: H = kani::any();
+        let t = any_table::<16>(&h, NK);
+        kani::assume(wf_bits(&t, &h, NK) & !(W_FREE | W_RESERVE) == 0);
+        let k = any_key();
+        let _ = t.find(hash_of(&h, k), |&x| x == k);
         core::mem::forget(t);
     }
 }
